@@ -68,7 +68,7 @@ func (j *jsonSubProto) Pack(m erpc.Message) error {
 		m.ServiceMethod(),
 		m.Meta().QueryString(),
 		m.BodyCodec(),
-		bytes.Replace(bodyBytes, []byte{'"'}, []byte{'\\', '"'}, -1),
+		escapeJSONString(bodyBytes),
 		xferPipeIDsBytes,
 	)
 
@@ -118,4 +118,11 @@ func (j *jsonSubProto) Unpack(m erpc.Message) error {
 	// unmarshal new body
 	err = m.UnmarshalBody(bodyBytes)
 	return err
+}
+
+// escapeJSONString escapes the body so that it can be embedded in a JSON string:
+// backslashes first, then double quotes.
+func escapeJSONString(b []byte) []byte {
+	b = bytes.Replace(b, []byte{'\\'}, []byte{'\\', '\\'}, -1)
+	return bytes.Replace(b, []byte{'"'}, []byte{'\\', '"'}, -1)
 }
